@@ -35,12 +35,13 @@ Blame(r, A, N, cur, obs, D) ==
    IN IF obs = D THEN {}
       ELSE IF obs /\ A = {} THEN {<<"C19.non_active", "over">>}
       ELSE IF obs /\ unk # {} /\ DefExcludedA(A, N, curU)
-           THEN {<<"C19.unknown_category", IF \E a \in A : a.cat \in unk /\ a.pre \notin N THEN "over.upos" ELSE "over.uneg">>}
+           THEN \* "+known": the list also has active tags of known categories (the blame is then not unique)
+                {<<"C19.unknown_category", IF \E a \in A : a.cat \in unk /\ a.pre \notin N
+                                           THEN (IF \E a \in A : a.cat \in Kn THEN "over.upos+known" ELSE "over.upos")
+                                           ELSE "over.uneg">>}
       ELSE {<<IF vo THEN "C19.value_objects" ELSE "C19.exclude", IF obs THEN "over" ELSE "under">>}
-Judge(r, j) ==
-   LET P == SeqToSet(r.P)  N == SeqToSet(r.N)
-       A == DefActive(r.tags, P, r.sep)
-   IN IF r.exc[j] # "" THEN {<<"C19.exclude", "exc">>}
+Judge(r, j, A, N) ==
+      IF r.exc[j] # "" THEN {<<"C19.exclude", "exc">>}
       ELSE (IF r.run[j] = r.ex[j] THEN {<<"C19.run_is_negation", "same">>} ELSE {})
         \cup
         (IF r.mk = "composite"
@@ -49,7 +50,10 @@ Judge(r, j) ==
          ELSE LET cur == CurOf(r, j, 0)  D == DefExcludedA(A, N, cur) IN
               Blame(r, A, N, cur, r.ex[j], D)
               \cup (IF r.ex2[j] # r.ex[j] /\ r.ex2[j] # D THEN {<<"C19.provider_cache", "warm">>} ELSE {}))
-Findings(r) == IF ~r.judge THEN {} ELSE UNION {{<<v[1], v[2], j>> : v \in Judge(r, j)} : j \in DOMAIN r.combos}
+Findings(r) == IF ~r.judge THEN {}
+               ELSE LET N == SeqToSet(r.N)
+                        A == DefActive(r.tags, SeqToSet(r.P), r.sep)      \* the active tags of the row, read once
+                    IN UNION {{<<v[1], v[2], j>> : v \in Judge(r, j, A, N)} : j \in DOMAIN r.combos}
 \* one line per (clause, what): the first observation that shows it
 Minimal(F) == {f \in F : \A g \in F : (g[1] = f[1] /\ g[2] = f[2]) => f[3] <= g[3]}
 
@@ -57,8 +61,7 @@ Minimal(F) == {f \in F : \A g \in F : (g[1] = f[1] /\ g[2] = f[2]) => f[3] <= g[
 ProvOf(r, j) == IF r.pk = "comp"
                 THEN [pk |-> "comp", mem |-> [m \in 1..Len(r.mpk) |-> [pk |-> r.mpk[m], data |-> CurOf(r, j, m)]]]
                 ELSE [pk |-> r.pk, mem |-> <<[pk |-> r.pk, data |-> CurOf(r, j, 0)]>>]
-Predicted(r, j) ==
-   LET sel == AlgSelect(r.tags, r.P, r.sep) IN
+Predicted(r, j, sel, wsel) ==
    IF r.mk = "composite"
    THEN LET provs == [m \in 1..r.nm |-> DictProv(CurOf(r, j, m))] IN
         [ex |-> AlgCompositeSel(sel, provs, r.ign), ex2 |-> AlgCompositeSel(sel, provs, r.ign),
@@ -66,13 +69,15 @@ Predicted(r, j) ==
    ELSE LET p  == ProvOf(r, j)
             k1 == AlgCallSel(sel, p, r.ign, EmptyCache)                     \* should_exclude_with
             k2 == AlgCallSel(sel, p, r.ign, k1.cache)                       \* should_run_with
-            k3 == AlgCall(r.warm, r.P, r.sep, p, r.ign, k2.cache)           \* the warming call
+            k3 == AlgCallSel(wsel, p, r.ign, k2.cache)                      \* the warming call
             k4 == AlgCallSel(sel, p, r.ign, k3.cache)
         IN [ex |-> k1.ex, ex2 |-> k4.ex, mex |-> <<>>]
-Diverges(r, j) == r.exc[j] # "" \/ LET q == Predicted(r, j) IN
+Diverges(r, j, sel, wsel) == r.exc[j] # "" \/ LET q == Predicted(r, j, sel, wsel) IN
                   \/ q.ex # r.ex[j] \/ q.ex2 # r.ex2[j] \/ r.run[j] = r.ex[j]
                   \/ (r.mk = "composite" /\ \E m \in 1..r.nm : q.mex[m] # r.mex[j][m])
-DivergeAt(r) == {j \in DOMAIN r.combos : Diverges(r, j)}
+DivergeAt(r) == LET sel  == AlgSelect(r.tags, r.P, r.sep)
+                    wsel == AlgSelect(r.warm, r.P, r.sep)
+                IN {j \in DOMAIN r.combos : Diverges(r, j, sel, wsel)}
 
 Next == /\ i <= Len(Rows)
         /\ \A f \in Minimal(Findings(R)) : PrintT(<<"VERDICT", R.id, f[1], f[3], f[2]>>)
